@@ -22,7 +22,7 @@ ASSUMPTIONS = [
     "virtual clock; AF_UNIX socketpairs as in C04",
     "a 'probe' of an entry point is a maximal run of identical frames with no delivery in between",
 ]
-MUST = ["full_timeout_after_corrupt_answer", "final_silent_exact", "prefix_success_after_drops", "prefix_exhausted", "prefix_rejected", "prefix_send_error",
+MUST = ["slow_answer_in_time", "full_timeout_after_corrupt_answer", "final_silent_exact", "prefix_success_after_drops", "prefix_exhausted", "prefix_rejected", "prefix_send_error",
         "prefix_recv_error", "loop_change", "connect_probe", "discover_probe", "search_probe", "detected_family_probe",
         "connected_then_silent"]
 EXHAUSTIVE = {"quick": True, "thorough": True}
@@ -31,7 +31,7 @@ EPS = 1e-6
 
 
 def classes(R):
-    cs = ["ok0", "exh", "senderr", "recverr", "badlate_ok", "badlate_exh"]
+    cs = ["ok0", "okslow", "exh", "senderr", "recverr", "badlate_ok", "badlate_exh"]
     cs += [f"ok{k}" for k in range(1, R + 1)]
     cs += [f"rej{j}" for j in range(0, R + 1)]
     return cs
@@ -40,6 +40,8 @@ def classes(R):
 def script_for(cls, R):
     if cls == "ok0":
         return ["now"]
+    if cls == "okslow":            # answered 0.6 T after the transmission: in time, one transmission
+        return [["delay", "0.6T"]]
     if cls.startswith("ok"):
         return ["drop"] * int(cls[2:]) + ["now"]
     if cls == "exh":
@@ -63,11 +65,14 @@ def scenario(transport, ka, T, R, prefix, newloop):
     groups = []
     for i, cls in enumerate(prefix):
         reg = 100 + i
-        by_reg[reg] = [(["delay", 0.8 * T] if x == ["delay", "0.8T"] else x) for x in script_for(cls, R)]
+        by_reg[reg] = [(["delay", 0.8 * T] if x == ["delay", "0.8T"] else (["delay", 0.6 * T] if x == ["delay", "0.6T"] else x))
+                       for x in script_for(cls, R)]
         steps = []
         if cls == "senderr":
             steps.append(["arm_send_fault", errno.ENETUNREACH])
         steps.append(["read", reg, 2])
+        if (i + len(prefix)) % 2 == 1:
+            steps.append(["sleep", 0.4 * T])        # the next request starts 0.4 T later (stale timers would fire inside it)
         groups.append(steps)
     final_reg = 100 + len(prefix)
     by_reg[final_reg] = []
@@ -104,6 +109,13 @@ def check_history(sc, run, part: Part):
                             f"{ctx}: ended {rec['outcome']} at +{round(rec['t1'] - rec['t0'], 6)}, expected failure at +{(R + 1) * T}"))
             else:
                 part.count("final_silent_exact" if cls == "final" else "prefix_exhausted")
+        elif cls == "okslow":
+            if rec["outcome"] != "ok" or len(txt) != 1 or abs(rec["t1"] - (rec["t0"] + 0.6 * T)) > EPS:
+                out.append((f"C05/{tr}/timeout-cut-short",
+                            f"{ctx}: answer 0.6 T after the transmission: outcome {rec['outcome']} at +{round(rec['t1'] - rec['t0'], 6)} "
+                            f"with transmissions at {[round(t - rec['t0'], 6) for t in txt]}"))
+            else:
+                part.count("slow_answer_in_time")
         elif cls.startswith("ok"):
             k = int(cls[2:])
             if rec["outcome"] != "ok" or not spaced(txt, rec["t0"], T, k + 1):
@@ -256,7 +268,7 @@ def entry_case(case, part):
                 vs.append((f"C05/entry/{kind}/no-followup", f"{tag}: no request followed the identification answer"))
     elif kind == "connected_then_silent":
         fam, port = case["family"], case["port"]
-        peer = make_family_sim(fam)
+        peer = make_family_sim(fam, case.get("refuse_probes", False))
         state = {}
 
         async def flow(loop):
@@ -289,10 +301,11 @@ def entry_case(case, part):
     return vs
 
 
-def make_family_sim(fam):
+def make_family_sim(fam, refuse_probes=False):
     if fam == "ET":
         regs = sims.et_device_info("9010KETU000W0000", 10000)
-        return sims.ModbusSim("inv0", regs=regs)
+        # (old firmware: the two capability probes of read_device_info are answered with ILLEGAL DATA ADDRESS)
+        return sims.ModbusSim("inv0", regs=regs, refused=[(47545, 47571), (47589, 47594)] if refuse_probes else [])
     if fam == "DT":
         regs = sims.dt_device_info("9006KDTU000W0000")
         return sims.ModbusSim("inv0", regs=regs)
@@ -343,6 +356,9 @@ def run_shard(spec):
                                 continue
                             entry_case({"kind": "connected_then_silent", "family": fam, "port": port, "via": via,
                                         "timeout": t, "retries": r}, part)
+                            if fam == "ET":
+                                entry_case({"kind": "connected_then_silent", "family": fam, "port": port, "via": via,
+                                            "timeout": t, "retries": r, "refuse_probes": True}, part)
         entry_case({"kind": "search", "timeout": 1, "retries": 0}, part)
     return part
 
